@@ -9,6 +9,8 @@ import NxsModel.Driver.Reasm
 import NxsModel.Driver.Config
 import NxsModel.Driver.Handshake
 import NxsModel.Driver.Fanout
+import NxsModel.Driver.Lifecycle
+import NxsModel.Driver.Worker
 open Nxs Nxs.Driver
 
 def dispatch (toks : List String) : String :=
@@ -24,6 +26,8 @@ def dispatch (toks : List String) : String :=
   | "cfg" :: rest => (cfgOp rest).getD "bad-op"
   | "hs" :: rest => (hsOp rest).getD "bad-op"
   | "fan" :: rest => (fanOp rest).getD "bad-op"
+  | "life" :: rest => (lifeOp rest).getD "bad-op"
+  | "worker" :: rest => (workerOp rest).getD "bad-op"
   | _ => "bad-op"
 
 partial def loop (h : IO.FS.Stream) (out : IO.FS.Stream) : IO Unit := do
